@@ -26,11 +26,15 @@ AllBehs == {"resp",            \* returns a Response
             "nonresp",         \* returns a non-Response where a Response is due (no renderer / from render / from a middleware)
             "raiseExc",        \* raises an Exception subclass (not an HTTPException)
             "raiseHttpB", "returnHttpB",     \* HTTPException, breaking, raised / returned
-            "raiseHttpNB", "returnHttpNB"}   \* HTTPException marked non-breaking, raised / returned
+            "raiseHttpNB", "returnHttpNB",   \* HTTPException marked non-breaking, raised / returned
+            \* requests to a path served by two method-restricted routes (GET-only, POST-only):
+            "mGet", "mPost",   \* admitted by the first / the second route
+            "mWrong"}          \* admitted by neither: DispatchState collects the allowed methods, the catch-all answers 405
+MethodBehs == {"mGet", "mPost", "mWrong"}
 AllPositions == {"ep", "rn", "rqmwBefore", "rqmwAfter", "epmwBefore", "epmwAfter", "rnmwBefore", "rnmwAfter"}
 
 \* a behaviour is expressible at a position ("ctx" only makes sense for the endpoint)
-Feasible(b, p) == (b = "ctx" => p = "ep")
+Feasible(b, p) == (b = "ctx" => p = "ep") /\ (b \in MethodBehs => p = "ep")
 
 VARIABLES cfg,      \* [handler, re] - never changes after construction
           hist,     \* completed requests: sequence of [beh, pos, out]
@@ -57,6 +61,9 @@ NewRequest(b, p) ==
 Execute ==
     /\ pc = "execute"
     /\ val' = CASE cur.beh \in {"resp", "ctx"} -> [k |-> "resp", own |-> FALSE, brk |-> TRUE, cls |-> "-"]
+                [] cur.beh = "mGet"  -> [k |-> "resp", own |-> FALSE, brk |-> TRUE, cls |-> "get"]     \* the GET route answered
+                [] cur.beh = "mPost" -> [k |-> "resp", own |-> FALSE, brk |-> TRUE, cls |-> "post"]    \* the POST route answered
+                [] cur.beh = "mWrong" -> [k |-> "http", own |-> FALSE, brk |-> TRUE, cls |-> "405"]    \* MethodNotAllowed from the catch-all
                 [] cur.beh = "nonresp"        -> [k |-> "nonresp", own |-> FALSE, brk |-> TRUE, cls |-> "-"]
                 [] cur.beh = "raiseExc"       -> [k |-> "exc", own |-> FALSE, brk |-> TRUE, cls |-> "app"]
                 [] cur.beh \in {"raiseHttpB", "returnHttpB"}   -> [k |-> "http", own |-> TRUE, brk |-> TRUE, cls |-> "-"]
@@ -86,7 +93,8 @@ Caught ==
 
 Classify ==
     /\ pc = "classify"
-    /\ CASE val.k = "resp" -> /\ out' = [k |-> "status", status |-> "ok", exc |-> "-"] /\ pc' = "done" /\ UNCHANGED excs
+    /\ CASE val.k = "resp" -> /\ out' = [k |-> "status", status |-> (IF val.cls \in {"get", "post"} THEN "ok:" \o val.cls ELSE "ok"), exc |-> "-"]
+                              /\ pc' = "done" /\ UNCHANGED excs
          [] val.k = "http" /\ val.brk -> pc' = "renderError" /\ UNCHANGED <<out, excs>>
          [] val.k = "http" /\ ~val.brk -> excs' = Append(excs, val) /\ pc' = "nullroute" /\ UNCHANGED out
     /\ UNCHANGED <<cfg, hist, cur, val>>
@@ -98,7 +106,7 @@ NullRoute ==
     /\ pc' = "renderError"
     /\ UNCHANGED <<cfg, hist, cur, excs, out>>
 
-StatusOfVal == IF val.own THEN "own" ELSE "500"
+StatusOfVal == IF val.own THEN "own" ELSE IF val.cls = "405" THEN "405" ELSE "500"
 
 \* route.execute_error(...) with the handler's render_error
 RenderError ==
@@ -128,6 +136,9 @@ Spec == Init /\ [][Next]_vars
 \* the outcome of a request is a function of the application and the request alone
 Expected(c, b) ==
     CASE b \in {"resp", "ctx"} -> [k |-> "status", status |-> "ok", exc |-> "-"]
+      [] b = "mGet" -> [k |-> "status", status |-> "ok:get", exc |-> "-"]
+      [] b = "mPost" -> [k |-> "status", status |-> "ok:post", exc |-> "-"]
+      [] b = "mWrong" -> [k |-> "status", status |-> IF c.re = "other" THEN "otherOrSame:405" ELSE "405", exc |-> "-"]
       [] b \in {"nonresp", "raiseExc"} ->
            IF c.handler = "reraise" THEN [k |-> "escape", status |-> "-", exc |-> IF b = "nonresp" THEN "TypeError" ELSE "app"]
            ELSE [k |-> "status", status |-> IF c.re = "other" THEN "otherOrSame:500" ELSE "500", exc |-> "-"]
